@@ -83,6 +83,15 @@ theorem no_growth_with_room_bins (hash : Nat → Nat) (c : Nat) (hc0 : 0 < c)
     (putAll items (withCapacity hash c)).resizes = 0 :=
   Seq.no_growth_with_room_bins hash c hc0 hc items hlen hbins
 
+/-- … and, with a hypothesis on the inputs only: fewer than 8 of the inserted keys hash to any one
+of the `presizeCap c` bins (`keysInBin`: how many of the keys `bini (hash k) n` sends to bin `i`) -/
+theorem no_growth_with_room_hash (hash : Nat → Nat) (c : Nat) (hc0 : 0 < c)
+    (hc : c < MAXIMUM_CAPACITY / 2) (items : List (Nat × Nat × Nat × Nat)) (hlen : items.length ≤ c)
+    (hbins : ∀ i, keysInBin hash (presizeCap c) i (items.map (·.1)) < TREEIFY_THRESHOLD) :
+    tableLen (putAll items (withCapacity hash c)) = presizeCap c ∧
+    (putAll items (withCapacity hash c)).resizes = 0 :=
+  Seq.no_growth_with_room_hash hash c hc0 hc _ items rfl hlen hbins
+
 /-- **the table length is a power of two `≤ 2^30`** (or the table does not exist yet) -/
 theorem table_len_pow2 (m : Map) (hw : WF m) :
     m.table = none ∨ ((∃ k, tableLen m = 2 ^ k) ∧ tableLen m ≤ MAXIMUM_CAPACITY) := by
@@ -126,6 +135,12 @@ example : Good ex2 ∧ tableLen ex2 = 8 ∧ ex2.sizeCtl = 6 ∧ ex2.count = 2 :=
 example : let r := (run ex2 [.ins 3 0 0 0, .ins 4 0 0 0, .ins 5 0 0 0]).1
     tableLen r = 8 ∧ tableLen (step r (.ins 6 0 0 0)).1 = 16 ∧ (step r (.ins 6 0 0 0)).1.resizes = 1 := by
   decide
+/-- four keys into `with_capacity(4)`: no bin gets 8 of them, whatever the hash function -/
+example (hash : Nat → Nat) :
+    tableLen (putAll [(1, 0, 0, 0), (2, 0, 0, 0), (3, 0, 0, 0), (4, 0, 0, 0)] (withCapacity hash 4)) =
+      presizeCap 4 :=
+  (no_growth_with_room_hash hash 4 (by decide) (by decide) _ (by decide)
+    (fun i => Nat.lt_of_le_of_lt (List.length_filter_le _ _) (by decide))).1
 /-- removing all of them again does not change the length -/
 example : tableLen (run ex2 [.rm 1, .cip 2 (fun _ _ _ => .remove), .clear]).1 = 8 := by decide
 
